@@ -46,17 +46,17 @@ theorem languageList_noCrash : NoCrash languageListCodec := by
   intro bs k
   simp only [languageListCodec]
   unfold parseLanguageList
-  cases hp : parseNum .network 4 (bs.take 4) with
+  cases hb : nameListBody bs with
   | error e =>
     simp only [bind, Except.bind]
     intro h; cases h
-    exact parseNum_no_crash vs4 _ _ hp
+    exact nameListBody_noCrash _ _ hb
   | ok r =>
-    obtain ⟨len, m⟩ := r
+    obtain ⟨body, m⟩ := r
     simp only [bind, Except.bind]
     split
     · simp [pure, Except.pure]
-    · cases hs : splitItems comma ((bs.drop 4).take len) with
+    · cases hs : splitItems comma body with
       | error e =>
         intro h; cases h
         exact splitItems_no_crash _ _ _ hs
